@@ -1144,7 +1144,7 @@ impl TwoFloat {
     /// ```
     pub fn log2(self) -> Self {
         if self == 1.0 {
-            Self::from(1.0)
+            Self::from(0.0)
         } else if self <= 0.0 {
             Self::NAN
         } else {
